@@ -476,12 +476,13 @@ func (a action) String() string {
 }
 
 type replay struct {
-	Backing string      `json:"backing,omitempty"`
-	Pre     string      `json:"pre,omitempty"`
-	Actions []action    `json:"actions,omitempty"`
-	Conc    *concReplay `json:"concurrent,omitempty"`    // set: a history of the concurrent part (concurrent_test.go)
-	Large   *largeCase  `json:"large_payload,omitempty"` // set: a case of the large-payload part (large_test.go)
-	Latency *latCase    `json:"latency,omitempty"`       // set: a case of the latency part (latency_test.go)
+	Backing  string      `json:"backing,omitempty"`
+	Pre      string      `json:"pre,omitempty"`
+	Actions  []action    `json:"actions,omitempty"`
+	Conc     *concReplay `json:"concurrent,omitempty"`     // set: a history of the concurrent part (concurrent_test.go)
+	Large    *largeCase  `json:"large_payload,omitempty"`  // set: a case of the large-payload part (large_test.go)
+	Latency  *latCase    `json:"latency,omitempty"`        // set: a case of the latency part (latency_test.go)
+	Mismatch *mmCase     `json:"limit_mismatch,omitempty"` // set: a case of the limit-mismatch part (mismatch_test.go)
 }
 
 func sizeLists(maxLen int) [][]int {
@@ -922,7 +923,8 @@ func TestCheck(t *testing.T) {
 		"loopback TCP between the real jsonrpc.Server and Client is reliable (transport failures are reported as machinery errors, not verdicts)",
 		"the backing DA honours a dead context (the double does; DummyDA does not and is therefore only run without cancellation and injection)",
 		"the backing DA fails before it stores anything (no store-then-fail injection); cancellation is only explored as a context that is already dead when the call starts (mid-flight cancellation is timing dependent)",
-		"client MaxBlobSize equals the backing DA's limit (sequential and concurrent part: both shrunk to `blob_size_limit` bytes; large-payload part: both are the default proxy.NewClient sets)",
+		"client MaxBlobSize equals the backing DA's limit in the sequential, concurrent and latency parts (both shrunk to `blob_size_limit` bytes) and in the large-payload part (both are the default proxy.NewClient sets) except its limit-mismatch cases; different limits are the subject of the limit-mismatch part only",
+		"limit-mismatch part: a backing DA with a limit of its own behaves like core/da DummyDA (takes the longest prefix whose total fits ITS limit and returns that many ids; fails the whole call with ErrBlobSizeOverLimit for a blob over its limit met before that cut) - both DummyDA itself and the double; the in-process reference of SubmitWithHelpers is the same DA handed the prefix that the client contract of the property statement selects (longest prefix that fits the client's MaxBlobSize; an individually oversize blob scanned on the way fails the call with StatusTooBig and sends nothing), which for equal limits is the plain direct call; DA.Submit is compared with the plain direct call and only as success/failure + ids (a caller of the bare interface has no status); fault-free calls, one caller, only the limits, sizes and list lengths in bounds.limit_mismatch",
 		"large-payload part: blob sizes and counts only within the stated grid (totals, shapes, tails in bounds.large_payload; smallest blob size and therefore largest encoding overhead per raw byte as stated); fault-free calls, one caller, HTTP over loopback TCP; a liveness guard of 5 minutes per case (a proxied call that has not returned by then is compared as a failed call); a failing case is run twice and counts only if it fails both times",
 		"latency part: REAL time (the only part whose cases last as long as the latency they describe): the backing DA's first call of one kind waits L on the wall clock before it answers, or the caller pauses for L between two calls; L only from the list in bounds.latency (+1 s above the common server-side timeout values 5/10/15/30 s, 55 s = just below the node's own 60 s budget per DA call, +1 s above every timeout NewServer configures on its http.Server as read through the VerifHTTPTimeouts hook; idle gaps also 125 s); the waiting DA honours its context and stores only after the wait; fault-free calls, one caller per server/client pair, loopback TCP; callers carry no deadline of their own except a liveness guard of L + 2 minutes (a call that has not returned by then is compared as a failed call); a failing case is run twice and counts only if it fails both times. The verdict does not depend on the machine's speed: the unchanged code has no timeout a call of these lengths can reach and a slow machine only lengthens calls; a timeout that is introduced at one of the listed values is exceeded by >= 1 s",
 		"server, client and node helpers keep no state between calls other than the backing store, the HTTP connection pool and the request counter: histories are merged when store contents and the status of the last call agree",
@@ -961,6 +963,20 @@ func TestCheck(t *testing.T) {
 			for _, v := range res.viols {
 				v.Cost, v.History = rp.Latency.Seconds, rp
 				r.Report(v)
+			}
+		} else if rp.Mismatch != nil {
+			if g, err := newRigWith(rp.Mismatch.Backing, uint64(rp.Mismatch.ClientLimit)); err != nil {
+				r.EngineError(err.Error())
+			} else {
+				res := g.runMismatch(*rp.Mismatch)
+				g.close()
+				if res.engine != "" {
+					r.EngineError(res.engine)
+				}
+				for _, v := range res.viols {
+					v.Cost, v.History = 1, rp
+					r.Report(v)
+				}
 			}
 		} else if rp.Large != nil {
 			if g, err := newRigWith(rp.Large.Backing, 0); err != nil {
@@ -1003,8 +1019,8 @@ func TestCheck(t *testing.T) {
 	exhaustive := true
 
 	kinds := []string{"fake", "dummyda"}
-	only := os.Getenv("VERIF_C16_PART") // development aid: "seq" | "large" | "conc" | "lat"; a partial run is reported as capped
-	if only == "conc" || only == "large" || only == "lat" {
+	only := os.Getenv("VERIF_C16_PART") // development aid: "seq" | "large" | "conc" | "lat" | "mm"; a partial run is reported as capped
+	if only == "conc" || only == "large" || only == "lat" || only == "mm" {
 		kinds = nil
 	}
 	// latency part (latency_test.go): real time, every case on its own server/client pair, all at once and next to the other parts
@@ -1120,6 +1136,13 @@ func TestCheck(t *testing.T) {
 		}
 	}
 
+	// limit-mismatch part (mismatch_test.go): the backing DA's limit differs from the client's MaxBlobSize
+	var mr mmResult
+	if only == "" || only == "mm" {
+		mr = mismatchPart(r, workers, vf.Pick(r, 2*time.Minute, 10*time.Minute))
+		caps = append(caps, mr.Caps...)
+	}
+
 	// large-payload part (large_test.go): the same comparison with the client's real default size limit
 	var lr largeResult
 	if only == "" || only == "large" {
@@ -1161,7 +1184,7 @@ func TestCheck(t *testing.T) {
 	}
 	sort.Strings(pairList)
 	r.Finish(vf.Coverage{
-		Evaluations: histories.Load() + cr.Execs + lr.Cases + tr.Cases, DistinctNontrivial: int64(len(distinct)+len(concLins)) + lr.Cases + tr.Cases, States: int64(len(states)), Transitions: calls.Load() + cr.DACalls + lr.Calls + tr.Calls,
+		Evaluations: histories.Load() + cr.Execs + lr.Cases + tr.Cases + mr.Cases, DistinctNontrivial: int64(len(distinct)+len(concLins)) + lr.Cases + tr.Cases + mr.Distinct, States: int64(len(states)), Transitions: calls.Load() + cr.DACalls + lr.Calls + tr.Calls + mr.Calls,
 		Rule: "SEQUENTIAL PART: every history of at most `depth` calls whose non-final calls come from the core alphabet and whose final call ranges over the whole alphabet " +
 			"(SubmitWithHelpers with every blob list of length <=3 over sizes {0,1,limit-1,limit,limit+1} x {no fault, each injected backing error, caller context already cancelled}; " +
 			"RetrieveWithHelpers at heights 0..4 (empty, populated, future in both pre-states) x {no fault, each injected error at GetIDs, at Get, cancelled context}; one DA block passes), " +
@@ -1175,11 +1198,15 @@ func TestCheck(t *testing.T) {
 			"LATENCY PART (real time, bounds.latency): for every latency L of the tier and each of {SubmitWithHelpers whose DA SubmitWithOptions waits L (batch cut to a prefix), RetrieveWithHelpers whose DA GetIDs waits L, RetrieveWithHelpers whose DA Get waits L}: the slow call, then fast calls on the same client (read-back of the written height / retrieve + submit); and for every idle-gap length: submit, pause, retrieve + submit + read-back on the same client; each case on its own real server + client pair over loopback with a direct and a proxied instance of the same waiting double called at the same time, all cases running concurrently with each other and with the other parts; " +
 			"oracle: status, submitted count, ids and blobs of every call equal on both paths, both stores equal, the store behind the proxy holds exactly the prefixes reported as submitted; " +
 			"LARGE-PAYLOAD PART: see bounds.large_payload and the assumptions; " +
-			"evaluations = sequential histories + interleavings executed + large-payload cases + latency cases, transitions = helper calls + DA calls behind the proxy, distinct additionally counts distinct (workload, DA call order) pairs and the cases of the large-payload and latency parts",
+			"LIMIT-MISMATCH PART (bounds.limit_mismatch): client MaxBlobSize = `blob_size_limit`, backing DA limit from `backing_DA_limits` (below the client's: one byte less, half, one smallest blob; above it), every blob list up to `max_list_len` blobs over `blob_sizes` (every size 0..limit+1), from both pre-states, on the double and on DummyDA, submitted the way the node's submitter does " +
+			"(types.SubmitWithHelpers or bare DA.Submit; after a successful call that took a proper non-empty prefix the rest of the list is submitted again), then one DA block and a read-back of every written height through both paths; " +
+			"oracle per call: status, submitted count and ids equal to the in-process reference (see assumptions), both stores equal, the store behind the proxy holds exactly the prefixes reported as submitted; " +
+			"evaluations = sequential histories + interleavings executed + large-payload cases + latency cases + limit-mismatch cases, transitions = helper calls + DA calls behind the proxy, distinct additionally counts distinct (workload, DA call order) pairs, the cases of the large-payload and latency parts and the distinct (backing, pre-state, backing limit, method, sequence of result pairs, final store) tuples of the limit-mismatch part",
 		Exhaustive: exhaustive && len(caps) == 0, Caps: caps,
 		Bounds: map[string]any{"depth": depth, "alphabet": len(acts), "core_alphabet": nCore, "blob_size_limit": limit, "blob_sizes": blobSizes, "max_list_len": 3,
-			"retrieve_heights": retrieveHeights, "injected_error_kinds": len(errKinds), "pre_states": []string{"empty", "populated"}, "backings": []string{"fake(error-injecting double)", "core/da.DummyDA"}, "runs": perRun, "concurrent": cr.Bounds, "large_payload": lr.Bounds, "latency": tr.Bounds},
+			"retrieve_heights": retrieveHeights, "injected_error_kinds": len(errKinds), "pre_states": []string{"empty", "populated"}, "backings": []string{"fake(error-injecting double)", "core/da.DummyDA"}, "runs": perRun, "concurrent": cr.Bounds, "large_payload": lr.Bounds, "latency": tr.Bounds, "limit_mismatch": mr.Bounds},
 		Extra: map[string]any{"latency_cases": tr.Cases, "latency_helper_calls": tr.Calls, "latency_DA_calls_that_waited_the_whole_latency": tr.Waited, "latency_outcome_classes": tr.Classes,
+			"limit_mismatch_cases": mr.Cases, "limit_mismatch_helper_and_DA_calls": mr.Calls, "limit_mismatch_proxied_calls_answered_with_fewer_ids_than_blobs_sent": mr.Partial, "limit_mismatch_outcome_classes": mr.Classes,
 			"large_payload_cases": lr.Cases, "large_payload_calls": lr.Calls, "large_payload_raw_blob_bytes_through_the_proxy": lr.RawBytes,
 			"large_payload_largest_raw_request_bytes": lr.MaxReq, "large_payload_largest_raw_response_bytes": lr.MaxResp, "large_payload_outcome_classes": lr.Classes,
 			"sequential_histories": histories.Load(), "concurrent_interleavings_executed": cr.Execs, "concurrent_interleavings_with_overlapping_calls": cr.Overlap,
